@@ -28,11 +28,14 @@ NODES = {2: ["n1", "n2"], 3: ["n1", "n2", "n3"], 4: ["n1", "n2", "n3", "n4"]}
 # (nodes, bad, profile, MaxDup, MaxForge, reach invariant)
 MC_C11 = {"quick": [(2, [], "one", 1, 0, "C11_AllReached"), (3, [], "one", 1, 0, "C11_AllReached"),
                     (4, [], "one", 1, 0, "C11_AllReached"), (3, [], "two", 1, 0, "C11_AllReached"),
-                    (3, [], "chain", 0, 0, "C11_AllReachedModuloF13")],
+                    (3, [], "chain", 0, 0, "C11_AllReachedModuloF13"),
+                    # the duplicate-suppression window of a node may pass once
+                    (3, [], "two", 1, 0, "C11_AllReached", 1)],
           "thorough": [(2, [], "one", 2, 0, "C11_AllReached"), (3, [], "one", 2, 0, "C11_AllReached"),
                        (4, [], "one", 2, 0, "C11_AllReached"), (3, [], "two", 1, 0, "C11_AllReached"),
                        (4, [], "two", 0, 0, "C11_AllReached"), (3, [], "chain", 1, 0, "C11_AllReachedModuloF13"),
-                       (4, [], "chain", 0, 0, "C11_AllReachedModuloF13")]}
+                       (4, [], "chain", 0, 0, "C11_AllReachedModuloF13"),
+                       (3, [], "two", 2, 0, "C11_AllReached", 2), (4, [], "one", 1, 0, "C11_AllReached", 1)]}
 MC_C12 = {"quick": [(3, ["n3"], "one", 0, 2, "C12_NoSuppression"), (3, ["n2"], "one", 0, 2, "C12_NoSuppression"),
                     (4, ["n2"], "one", 0, 1, "C12_NoSuppression"), (3, ["n3"], "two", 0, 1, "C12_NoSuppression")],
           "thorough": [(3, ["n3"], "one", 1, 3, "C12_NoSuppression"), (3, ["n2"], "one", 1, 3, "C12_NoSuppression"),
@@ -45,7 +48,7 @@ SAFETY = ["TypeOK", "C11_AdmittedOnce", "C11_ForwardOnce", "C11_NeverToListed"]
 def constants(n, bad, prof, dup, forge, extra=None):
     items, k, p, o, _ = PROFILES[prof]
     c = {"Node": tla_set(NODES[n]), "Bad": tla_set(bad), "Item": items, "Kind": "<- " + k, "Parent": "<- " + p,
-         "Origin": "<- " + o, "MaxDup": str(dup), "MaxForge": str(forge), "AllowPoison": "FALSE"}
+         "Origin": "<- " + o, "MaxDup": str(dup), "MaxForge": str(forge), "MaxExpire": "0", "AllowPoison": "FALSE"}
     c.update(extra or {})
     return c
 
@@ -53,12 +56,14 @@ def constants(n, bad, prof, dup, forge, extra=None):
 def run_mc(wd, runs):
     copy_specs(wd, ["GossipNet.tla", "GossipNetMC.tla"])
     jobs = []
-    for idx, (n, bad, prof, dup, forge, reach) in enumerate(runs):
+    for idx, run in enumerate(runs):
+        n, bad, prof, dup, forge, reach = run[:6]
+        expire = run[6] if len(run) > 6 else 0
         name = "mc%d" % idx
         # with an adversary the origin of a transaction can be made to forward it once more (its own flash
         # memory is not set when it originates); the forward-once claim of C11 is about honest networks
         safety = SAFETY if not bad else ["TypeOK", "C11_AdmittedOnce", "C11_NeverToListed"]
-        write_cfg(os.path.join(wd, name + ".cfg"), "Spec", constants(n, bad, prof, dup, forge), safety + [reach],
+        write_cfg(os.path.join(wd, name + ".cfg"), "Spec", constants(n, bad, prof, dup, forge, {"MaxExpire": str(expire)}), safety + [reach],
                   ["C11_ForwardOnlyAfterAccept", "C11_Terminates"])
         fo = open(os.path.join(wd, name + ".out"), "w")
         jobs.append((name, (n, bad, prof), subprocess.Popen(
@@ -89,7 +94,7 @@ def run_mc(wd, runs):
 def simulate(wd, n, bad, prof, dup, forge, num, depth, sd):
     copy_specs(wd, ["GossipNet.tla", "GossipNetMC.tla", "GossipNetGen.tla"])
     name = "gen_%d_%s_%s_%d" % (n, "".join(bad) or "h", prof, sd)
-    write_cfg(os.path.join(wd, name + ".cfg"), "GenSpec", constants(n, bad, prof, dup, forge, {"GenDepth": str(depth)}),
+    write_cfg(os.path.join(wd, name + ".cfg"), "GenSpec", constants(n, bad, prof, dup, forge, {"GenDepth": str(depth), "MaxExpire": "0" if bad else "1"}),
               invariants=["GenEmit"])
     rc, out = tlc(wd, "GossipNetGen.tla", os.path.join(wd, name + ".cfg"), workers=1, timeout=600,
                   simulate="num=%d" % num, extra=["-depth", str(depth + 2), "-seed", str(sd)])
@@ -191,7 +196,7 @@ def drive_and_validate(wd, drivebin, behaviours, invariants, props):
         d = os.path.join(wd, key)
         copy_specs(d, ["GossipNet.tla", "GossipNetTrace.tla"])
         const = {"Node": "<- TNode", "Bad": "<- TBad", "Item": "<- TItem", "Kind": "<- TKind", "Parent": "<- TParent",
-                 "Origin": "<- TOrigin", "MaxDup": "1000", "MaxForge": "1000", "AllowPoison": "TRUE", "TraceFile": '"trace.ndjson"'}
+                 "Origin": "<- TOrigin", "MaxDup": "1000", "MaxForge": "1000", "MaxExpire": "1000", "AllowPoison": "TRUE", "TraceFile": '"trace.ndjson"'}
         write_cfg(os.path.join(d, "t.cfg"), "TSpec", const, invariants + ["Conforms"], props, postcondition="Accepted")
         fo = open(os.path.join(d, "tlc.out"), "w")
         jobs.append((key, d, subprocess.Popen(["java", "-Xss32m", "-Xmx3g", "-cp", TLC_CP, "tlc2.TLC", "-workers", "1", "-metadir",
@@ -238,7 +243,8 @@ def check(prop, tier):
     num = 120 if tier == "quick" else 1200
     behaviours = []
     sd = rng.randint(1, 10 ** 6)
-    for (n, bad, prof, dup, forge, reach) in runs:
+    for run in runs:
+        n, bad, prof, dup, forge, reach = run[:6]
         depth = 14 if prof == "one" else 22
         behaviours += simulate(wd, n, bad, prof, max(dup, 1) if not bad else dup, forge, num, depth, sd + n)
     behaviours += directed(prop)
